@@ -73,10 +73,11 @@ def f2Allowed (e : String × String × String × String) : Bool :=
 theorem shared_trees_written_only_by_constructors : Gen.f2.all f2Allowed = true := by decide
 
 /-- F3: the only package-level variable whose address escapes is the sentinel `nilGetSetObject`,
-    in exactly the known places (where it is stored as a marker and compared, never written through) -/
+    in exactly the known places (where it is stored as a marker and compared - fromPropertyDescriptor only compares, since fix f48e83f - never written through) -/
 theorem address_escapes_expected :
     Gen.f3 = [("otto", "nilGetSetObject", "", "objectDefineOwnProperty"),
               ("otto", "nilGetSetObject", "", "toPropertyDescriptor"),
+              ("otto", "nilGetSetObject", "runtime", "fromPropertyDescriptor"),
               ("otto", "nilGetSetObject", "runtime", "newErrorObject"),
               ("otto", "nilGetSetObject", "runtime", "newErrorObjectError"),
               ("otto", "nilGetSetObject", "runtime", "newNativeFunctionObject"),
